@@ -147,6 +147,50 @@ func rulesSamParser(c *Ctx, r *Report) {
 		r.undecided("SAM-COL", where, "record", c.pos(f.Pos()), "no SAM record allocation found")
 		return
 	}
+	// the record and the line may be handed to a helper stage: scopes of (function, line value, record value)
+	type scope struct {
+		fn        *ssa.Function
+		line, rec ssa.Value
+	}
+	scopes := []scope{{f, line, rec}}
+	instrs(f, func(in ssa.Instruction) {
+		if cl, ok := in.(*ssa.Call); ok {
+			if g := cl.Call.StaticCallee(); g != nil && g.Blocks != nil && c.inModule(g) && funcPkgPath(g) == funcPkgPath(f) {
+				var gl, gr ssa.Value
+				for i, a := range cl.Call.Args {
+					if i >= len(g.Params) {
+						break
+					}
+					if a == ssa.Value(line) {
+						gl = g.Params[i]
+					}
+					if a == ssa.Value(rec) {
+						gr = g.Params[i]
+					}
+				}
+				if gl != nil && gr != nil {
+					scopes = append(scopes, scope{g, gl, gr})
+					r.analysed(fname(g))
+				}
+			}
+		}
+	})
+	isRec := func(v ssa.Value) bool {
+		for _, sc := range scopes {
+			if sc.rec == v {
+				return true
+			}
+		}
+		return false
+	}
+	isLine := func(v ssa.Value) bool {
+		for _, sc := range scopes {
+			if sc.line == v {
+				return true
+			}
+		}
+		return false
+	}
 	fieldOfAddr := func(v ssa.Value) int {
 		for {
 			switch x := v.(type) {
@@ -154,7 +198,7 @@ func rulesSamParser(c *Ctx, r *Report) {
 				v = x.X
 				continue
 			case *ssa.FieldAddr:
-				if x.X == ssa.Value(rec) {
+				if isRec(x.X) {
 					return x.Field
 				}
 			}
@@ -170,30 +214,36 @@ func rulesSamParser(c *Ctx, r *Report) {
 		pcols[int(col)] = field
 	}
 	// direct string stores
-	instrs(f, func(in ssa.Instruction) {
-		st, ok := in.(*ssa.Store)
-		if !ok {
-			return
-		}
-		fi := fieldOfAddr(st.Addr)
-		if fi < 0 {
-			return
-		}
-		if ld, ok := st.Val.(*ssa.UnOp); ok && ld.Op == token.MUL {
-			if ia, ok := ld.X.(*ssa.IndexAddr); ok && ia.X == ssa.Value(line) {
-				if k, ok := cInt(constVal(ia.Index)); ok {
-					set(k, fi)
+	for _, sc := range scopes {
+		instrs(sc.fn, func(in ssa.Instruction) {
+			st, ok := in.(*ssa.Store)
+			if !ok {
+				return
+			}
+			fi := fieldOfAddr(st.Addr)
+			if fi < 0 {
+				return
+			}
+			if ld, ok := st.Val.(*ssa.UnOp); ok && ld.Op == token.MUL {
+				if ia, ok := ld.X.(*ssa.IndexAddr); ok && isLine(ia.X) {
+					if k, ok := cInt(constVal(ia.Index)); ok {
+						set(k, fi)
+					}
 				}
 			}
-		}
-	})
+		})
+	}
 	// parseInts(snm.At(line, lit), ptrs...)
 	pi := c.role("sam.parseInts")
 	okPI, okAt := false, false
 	if pi != nil {
-		for _, call := range staticCallsTo(f, pi) {
+		var piCalls []*ssa.Call
+		for _, sc := range scopes {
+			piCalls = append(piCalls, staticCallsTo(sc.fn, pi)...)
+		}
+		for _, call := range piCalls {
 			at, _ := call.Call.Args[0].(*ssa.Call)
-			if at == nil || at.Call.StaticCallee() == nil || at.Call.StaticCallee().Origin() == nil || qname(at.Call.StaticCallee()) != gostuffPath+"/snm.At" || at.Call.Args[0] != ssa.Value(line) {
+			if at == nil || at.Call.StaticCallee() == nil || at.Call.StaticCallee().Origin() == nil || qname(at.Call.StaticCallee()) != gostuffPath+"/snm.At" || !isLine(at.Call.Args[0]) {
 				r.undecided("SAM-COL", where, "integer columns", c.pos(call.Pos()), "parseInts is not fed from snm.At(line, literal indices)")
 				continue
 			}
